@@ -1,0 +1,26 @@
+//go:build verif
+
+package planner
+
+// Contracts for the gowp verifier (/verif). Comment-only file.
+
+// ---- LIMIT and ORDER BY as the planner applies them (C12) ---------------------------------
+
+//@ props C12 C08
+//@ func (p *queryPlan) limit
+//@   requires p != nil && p.stm != nil && p.tbl != nil && p.tbl.#lock_mu == 0
+//@   requires[limit-is-not-negative] p.stm.limitSet ==> p.stm.limit >= 0
+//@   modifies p.tbl.Data, p.tbl.#lock_mu
+//@   ensures[lock] p.tbl.#lock_mu == 0
+//@   ensures[first-rows] p.stm.limitSet ==> len(p.tbl.Data) == ite(old(len(p.tbl.Data)) > p.stm.limit, p.stm.limit, old(len(p.tbl.Data)))
+//@   ensures[rows-kept] forall k int :: {p.tbl.Data[k]} 0 <= k && k < len(p.tbl.Data) ==> p.tbl.Data[k] == old(p.tbl.Data[k])
+//@   ensures[no-limit] !p.stm.limitSet ==> p.tbl.Data == old(p.tbl.Data)
+
+//@ func (p *queryPlan) orderBy
+//@   requires p != nil && p.stm != nil && p.tbl != nil && p.tbl.#lock_mu == 0
+//@   requires[rows-have-the-keys] sortableRows(p.tbl.Data, p.stm.orderBy)
+//@   modifies p.tbl.Data, p.tbl.#lock_mu
+//@   ensures[lock] p.tbl.#lock_mu == 0
+//@   ensures[permutation] perm(old(p.tbl.Data), p.tbl.Data)
+//@   ensures[sorted] len(p.stm.orderBy) > 0 ==> sortedBy(p.tbl.Data, p.stm.orderBy)
+//@   ensures[no-order] len(p.stm.orderBy) == 0 ==> p.tbl.Data == old(p.tbl.Data)
